@@ -18,7 +18,7 @@
 //   case <id> | <expr> | <leaf specs> | <events>
 //
 //   expr   := (just N) (jerr N) (jdone) (argv N) (sir) (leaf N) (jfrom N) (jvod 0|1) (iv E) (dfr E) (alc E)
-//             (then FN E) (uerr FN E) (udone FN E) (md E) (dao N E) (uns E) (tag N E) (src E) (era E) (rtk E) (lvt E)
+//             (then FN E) (uerr FN E) (udone FN E) (md E) (dao N E) (uns E) (tag N E) (src E) (era E) (rtk E) (lvt E) (mob E)
 //             (lv A B) (le A B) (ld A B) (seq A B) (fin A B) (wa A B) (sw A B) (any A B)
 //   FN     := add:K | thr:E | tie:C:E:K | cst:K | ctie:C:E:K | N (= cst:N)
 //             | vcst:K | vthr:E | vtie:C:E:K     (callable returning VOID; the harness appends "then K")
@@ -369,6 +369,12 @@ static Any mk(World* w, S&& s) {
 // result of a void-returning user callable, or the child's own int value, as one int
 struct Unify { int k; template <typename... Xs> int operator()(Xs... xs) const noexcept { if constexpr (sizeof...(Xs) == 0) return k; else return (xs, ...); } };
 
+struct MatObs {
+  int operator()(tag_t<set_value>, int v) const noexcept { return v; }
+  int operator()(tag_t<set_error>, std::exception_ptr e) const noexcept { return errcode(e) + 100; }
+  int operator()(tag_t<set_done>) const noexcept { return 77; }
+};
+
 static Any build(World* w, const Node& n, int arg) {
   const std::string& k = n.k;
   auto num = [&](size_t i) { return atoi(n.args.at(i).c_str()); };
@@ -406,6 +412,8 @@ static Any build(World* w, const Node& n, int arg) {
     return mk(w, upon_done(build(w, n.ch.at(0), arg), [f]() { return f(0); }));
   }
   if (k == "md") return mk(w, dematerialize(materialize(build(w, n.ch.at(0), arg))));
+  // materialize() observed on the value channel: every completion of the child becomes a value
+  if (k == "mob") return mk(w, then(materialize(build(w, n.ch.at(0), arg)), MatObs{}));
   if (k == "dao") {
     int d = num(0);
     return mk(w, then(done_as_optional(build(w, n.ch.at(0), arg)), [d](std::optional<int> o) noexcept { return o ? *o : d; }));
